@@ -12,9 +12,11 @@ RULES = {
     'R2': 'rm: the count decrement and the TRUE return need the looked-up node to be present by that map\'s liveness predicate (hashtable/skiplist: key match; trie: live node)',
     'R3': 'the counter is incremented only on the insertion edge of put, decremented only in rm / destroy',
     'R4': 'every free of a node structure is preceded by the DELETED notification for it (hashtable, skiplist) or needs the node to carry no key (trie); put notifies INSERTED/REPLACED',
+    'R6': 'trie: a node\'s key is extended in place only if it carries no value, no notifier and no child; a notifier stays on the node of the key it was registered for',
+    'R7': 'key comparison is strcmp on the whole keys: skiplist op_search decides only on strcmp(node key, search key); hashtable lookup/put match on strcmp == 0',
     'R5': 'notify: callback under tn->events & event; FREE callback under (DELETED|REPLACED) and tn->events & FREE',
 }
-FLOORS = {'R1': 3, 'R2': 6, 'R3': 6, 'R4': 6, 'R5': 9}
+FLOORS = {'R1': 3, 'R2': 6, 'R3': 6, 'R4': 6, 'R5': 9, 'R6': 3, 'R7': 4}
 
 MAPS = {
     'hashtable': dict(file='lib/hashtable.c', create='qb_hashtable_create', rm='hashtable_rm_with_hash', put='hashtable_put',
@@ -51,6 +53,8 @@ def run(ctx):
         r3(ctx, name, m)
         r4(ctx, name, m)
         r5(ctx, name, m)
+    r6(ctx)
+    r7(ctx)
 
 
 def _present_atom(name, f, node_vars):
@@ -236,3 +240,72 @@ def r5(ctx, name, m):
         else:
             ctx.inconclusive('R5', '%s:callback-event-arg' % name, cb, 'callback event argument %s not understood' % estr(a0))
     ctx.check('R5', '%s:has-free-callback' % name, free_const is not None, f, 'a value-release (FREE) callback site exists', 'no FREE callback site')
+
+
+def r6(ctx):
+    prog = ctx.prog
+    f = prog.fn('trie_insert')
+    ext = [ev for ev in f.events('STORE') if (unwrap(ev.lhs).get('k') == 'idx' and field_is(unwrap(ev.lhs)['b'], 'segment', 'trie_node')) or
+           (field_is(ev.lhs, 'num_segments', 'trie_node') and ev.d['op'] in ('++', '+='))]
+    if not ext:
+        raise AnalysisBroken('trie_insert: in-place segment extension not found')
+
+    def novalue(a, fb):
+        if a.op == '==' and a.rc == 0 and (field_is(a.l, 'value', 'trie_node') or callee_of(unwrap(a.l)) == 'trie_node_alive'):
+            return True
+        return False
+
+    def nonotifier(a, fb):
+        return a.op == '!=' and a.rc == 0 and callee_of(unwrap(a.l)) == 'qb_list_empty' and any(field_is(x, 'notifier_head') for x in unwrap(a.l).get('args', []))
+
+    def nochild(a, fb):
+        return a.op == '==' and a.rc == 0 and field_is(a.l, 'num_children', 'trie_node')
+    for (what, pred, why) in (('no-value', novalue, 'a stored key would silently change'),
+                              ('no-notifier', nonotifier, 'a notifier registered for the shorter key ends up watching the longer one'),
+                              ('no-child', nochild, 'the children would move under a longer prefix')):
+        bad = [ev for ev in ext if f.uncut_path(ev, pred) is not None]
+        ctx.check('R6', 'trie:extend-in-place-needs-%s' % what, not bad, bad[0] if bad else ext[0],
+                  'a node is extended in place only when it has %s' % what.replace('-', ' '),
+                  'a node can be extended in place although it may have a %s: %s' % (what.split('-')[1], why))
+
+
+def r7(ctx):
+    prog = ctx.prog
+    f = prog.fn('op_search')
+    nodep, keyp = f.params[1]['n'], f.params[2]['n']
+    decided = 0
+    bad = []
+    for b in f.blocks.values():
+        if b.cond is None:
+            continue
+        c = unwrap(b.cond)
+        if c.get('k') == 'bin' and c['op'] in ('<', '>', '==', '<=', '>=', '!=') and cval(unwrap(c['r'])) == 0:
+            l = unwrap(c['l'])
+            if l.get('k') == 'var' and l['n'] not in (nodep, keyp):
+                decided += 1
+                srcs, entry = value_sources(f, l, f.end_of(b.id))
+                ok = bool(srcs) and not entry and all(callee_of(x) == 'strcmp' and field_is(x['args'][0], 'key') and estr(x['args'][1]) == keyp for x in srcs)
+                if not ok:
+                    bad.append(b)
+            elif callee_of(l) == 'strcmp':
+                decided += 1
+    ctx.check('R7', 'skiplist:order-is-strcmp', decided >= 2 and not bad, '%s:%d (op_search)' % (f.file, bad[0].term_ln if bad else f.line),
+              'every ordering decision in op_search is made on strcmp(node->key, search)',
+              'an ordering decision in op_search uses a value that is not (only) strcmp of the whole keys: iteration is no longer in ascending key order / lookups miss')
+    for nm in ('hashtable_lookup', 'hashtable_put'):
+        g = prog.fn(nm)
+        conds = [b for b in g.blocks.values() if b.cond is not None and has_call(b.cond, 'strcmp')]
+        ok = bool(conds) and all(unwrap(b.cond).get('k') == 'bin' and unwrap(b.cond)['op'] == '==' and cval(unwrap(unwrap(b.cond)['r'])) == 0 and
+                                 callee_of(unwrap(unwrap(b.cond)['l'])) == 'strcmp' for b in conds)
+        ctx.check('R7', '%s:match-is-strcmp-equal' % nm, ok, g, '%s matches on strcmp(...) == 0' % nm, '%s does not match on full-key equality' % nm)
+    t = prog.fn('trie_lookup')
+    # the exact-match test: a node is only returned for exact_match when the whole segment was consumed
+    rets = [r for r in t.returns() if r.e is not None and cval(unwrap(r.e)) != 0]
+    ex = t.params[2]['n']
+
+    def exact_ok(a, fb):
+        return (a.ls == ex and a.op == '==' and a.rc == 0) or (a.op in ('>=',) and 'seg_cnt' in a.ls) or (a.op == '<=' and field_is(a.l, 'num_segments')) or \
+            (a.op == '==' and a.rc == 0 and field_is(a.l, 'num_segments')) or (field_is(a.l, 'num_segments') and a.op == '<=' and a.rc == 0)
+    ok = bool(rets) and all(t.uncut_path(r, exact_ok) is None for r in rets)
+    ctx.check('R7', 'trie:exact-match-consumes-segment', ok, t, 'an exact lookup only succeeds when the node\'s whole segment was matched',
+              'an exact lookup can return a node whose segment extends beyond the key (a longer key answers for a shorter one)')
